@@ -80,7 +80,7 @@ FeatTable == <<
   F("i.off.xy",            "i", {}, "none", {}),
   F("tc.data",             "t", {"t"}, "all", {"tblcfg"}),
   F("tc.colwidths",        "t", {"tblGrid", "tcW"}, "all", {"tblcfg"}),
-  F("tc.emph",             "t", {"b", "i"}, "all", {"tblcfg"}),
+  F("tc.emph",             "t", {"b", "i"}, "all", {"c2", "r2", "tblcfg"}),
   F("p.align.left",        "p", {"jc"}, "all", {}),
   F("p.align.center",      "p", {"jc"}, "all", {}),
   F("p.align.right",       "p", {"jc"}, "all", {}),
@@ -386,30 +386,37 @@ Parse(d, Lost) ==
       sect |-> KeepEnts(d.sect, Lost), hs |-> d.hs]
 
 \* ---- alignment of body elements of two projections ------------------------
-\* pass 1 pairs equal signatures in order, pass 2 pairs the leftovers of equal kind that
-\* lie between the same anchors; the result maps indices of A to indices of B (0 = none)
-RECURSIVE Al1(_, _, _, _)
-Al1(A, B, i, j) ==
+\* Order-preserving pairing of the elements of A (reference) with those of B, one pass:
+\* equal kind and signature pair up; equal kind with a different signature pair up unless
+\* the exact partner of one of them follows later and the other side has a surplus of that
+\* kind (then the element without partner is lost / extra); different kinds: the element whose
+\* kind does not occur any more on the other side is lost / extra.
+\* The result maps indices of A to indices of B (0 = none).
+CountK(S, from, k) == Cardinality({x \in from..Len(S) : S[x].k = k})
+Exact(a, b) == a.k = b.k /\ a.sig = b.sig
+
+RECURSIVE Al(_, _, _, _)
+Al(A, B, i, j) ==
   IF i > Len(A) \/ j > Len(B) THEN {}
-  ELSE LET Cn == {jj \in j..Len(B) : B[jj].sig = A[i].sig /\ B[jj].k = A[i].k}
-       IN IF Cn = {} THEN Al1(A, B, i + 1, j)
-          ELSE {<<i, MinOfSet(Cn)>>} \cup Al1(A, B, i + 1, MinOfSet(Cn) + 1)
+  ELSE IF Exact(A[i], B[j]) THEN {<<i, j>>} \cup Al(A, B, i + 1, j + 1)
+  ELSE IF A[i].k = B[j].k THEN
+       IF (\E jj \in (j + 1)..Len(B) : Exact(A[i], B[jj])) /\ CountK(B, j, A[i].k) > CountK(A, i, A[i].k)
+       THEN Al(A, B, i, j + 1)
+       ELSE IF (\E ii \in (i + 1)..Len(A) : Exact(A[ii], B[j])) /\ CountK(A, i, A[i].k) > CountK(B, j, A[i].k)
+       THEN Al(A, B, i + 1, j)
+       ELSE {<<i, j>>} \cup Al(A, B, i + 1, j + 1)
+  ELSE LET aLater == CountK(B, j, A[i].k) > 0
+           bLater == CountK(A, i, B[j].k) > 0
+       IN IF ~aLater /\ ~bLater THEN Al(A, B, i + 1, j + 1)
+          ELSE IF ~aLater THEN Al(A, B, i + 1, j)
+          ELSE IF ~bLater THEN Al(A, B, i, j + 1)
+          ELSE IF CountK(A, i, A[i].k) > CountK(B, j, A[i].k) THEN Al(A, B, i + 1, j)
+          ELSE Al(A, B, i, j + 1)
 
-RECURSIVE Al2(_, _, _, _)
-Al2(A, B, M, i) ==
-  IF i > Len(A) THEN M
-  ELSE IF \E p \in M : p[1] = i THEN Al2(A, B, M, i + 1)
-  ELSE LET below == {p[2] : p \in {q \in M : q[1] < i}}
-           above == {p[2] : p \in {q \in M : q[1] > i}}
-           lo == IF below = {} THEN 0 ELSE MaxOfSet(below)
-           hi == IF above = {} THEN Len(B) + 1 ELSE MinOfSet(above)
-           Cn == {jj \in (lo + 1)..(hi - 1) : B[jj].k = A[i].k /\ ~\E p \in M : p[2] = jj}
-       IN IF Cn = {} THEN Al2(A, B, M, i + 1) ELSE Al2(A, B, M \cup {<<i, MinOfSet(Cn)>>}, i + 1)
-
-SameShape(A, B) == Len(A) = Len(B) /\ \A i \in 1..Len(A) : A[i].sig = B[i].sig /\ A[i].k = B[i].k
+SameShape(A, B) == Len(A) = Len(B) /\ \A i \in 1..Len(A) : Exact(A[i], B[i])
 Align(A, B) ==
   IF SameShape(A, B) THEN [i \in 1..Len(A) |-> i]
-  ELSE LET M == Al2(A, B, Al1(A, B, 1, 1), 1)
+  ELSE LET M == Al(A, B, 1, 1)
        IN [i \in 1..Len(A) |-> IF \E p \in M : p[1] = i THEN (CHOOSE p \in M : p[1] = i)[2] ELSE 0]
 
 \* ---- attribution ----------------------------------------------------------
